@@ -76,13 +76,25 @@ func c13Pkt(r *rng, id string) {
 			buf[r.intn(len(buf))] ^= byte(1 << uint(r.intn(8)))
 		}
 	}
+	// does the packet carry a membership message whose body the decoder accepts? (a body of a single
+	// msgpack nil decodes into an all-zero struct: odd, but decodable - acting on it is no decoding failure)
+	decodable := 0
+	payload := buf
+	if nb, _, err := ml.RemoveLabelHeaderFromPacket(buf); err == nil {
+		payload = nb
+	}
+	for _, part := range simParts(payload) {
+		if len(part) > 0 && (part[0] == 3 || part[0] == 4 || part[0] == 5) && ml.VerifDecodes(part[0], part[1:]) {
+			decodable = 1
+		}
+	}
 	before := fmt.Sprint(ml.VerifSnapshotState(rcv.m).Nodes)
 	rcv.tr.take()
 	pan := rcv.ingest(append([]byte(nil), buf...))
 	got := sortedHex(rcv.del.take())
 	changed := b2i(fmt.Sprint(ml.VerifSnapshotState(rcv.m).Nodes) != before)
 	replies := len(rcv.tr.take())
-	emit("C13 pkt id=%s label=%s skip=%d buf=%s got=%s changed=%d replies=%d panic=%d", id, hx([]byte(label)), b2i(skip), hx(buf), got, changed, replies, b2i(pan))
+	emit("C13 pkt id=%s label=%s skip=%d buf=%s got=%s changed=%d decodable=%d replies=%d panic=%d", id, hx([]byte(label)), b2i(skip), hx(buf), got, changed, decodable, replies, b2i(pan))
 }
 
 // ---- (b) mutation campaign on genuine packets ----
